@@ -66,9 +66,9 @@ theorem C08_interface_position (env : Env) (h : env.cfg.condByIdentity = false) 
     (hi : env.schema.find ity = some (.iface inm ifs0))
     (onm : String) (fs : List FieldDef) (ifs : List String)
     (ho : env.schema.find n.goType = some (.object onm fs ifs)) (himp : ifs.contains ity = true)
-    (d : Nat) (res : List (String × J)) (al : String) (args : List ArgVal) (sels : List Sel) :
+    (d : Nat) (res : List (String × J)) (al : String) (sels : List Sel) :
     objectTypeOf env node ity = some n.goType ∧
-    (rSel env node ity d res (.field al "__typename" args [] sels)).1 =
+    (rSel env node ity d res (.field al "__typename" [] [] sels)).1 =
       setKey res (if al.isEmpty then "__typename" else al) (.str n.goType) := by
   have hm : ity ∈ ifs := by simpa using himp
   refine ⟨by simp [objectTypeOf, hn, hi, ho, hm], ?_⟩
